@@ -22,7 +22,7 @@ import elementpath.aliases as ta
 from elementpath.datatypes import AbstractDateTime, ArithmeticProxy, Duration, Float, NumericProxy
 from elementpath.xpath_nodes import XPathNode, ElementNode, DocumentNode
 
-from elementpath.exceptions import ElementPathTypeError
+from elementpath.exceptions import ElementPathError
 from elementpath.helpers import node_position
 from elementpath.xpath_context import XPathSchemaContext
 from elementpath.xpath_tokens import XPathToken, NameToken, VariableToken, \
@@ -94,8 +94,8 @@ def evaluate__comparison_operators(self: XPathToken, context: ta.ContextType = N
     except (TypeError, ValueError) as err:
         if isinstance(context, XPathSchemaContext):
             return False
-        elif isinstance(err, ElementPathTypeError):
-            raise
+        elif isinstance(err, ElementPathError):
+            raise  # an error raised inside an operand keeps its own code
         elif isinstance(err, TypeError):
             raise self.error('XPTY0004', err) from None
         else:
